@@ -13,7 +13,8 @@
   std::invalid_argument("... can't be used with ...") produces no buffers: counted as `declined`, not a violation.
   Wrong buffers, a crash, an assertion, a non-zero return code or a hang (wall-clock timeout) is a violation with the
   signature C29:<collective>:<algorithm>:<np class>:<count class>:<kind>  (np class: np1 | pof2 | nonpof2; count class:
-  c0 = count 0 | clt = 0 < count < np | cge; kind: wrong | crash | hang).  The same refusal expressed by an error code
+  c0 = count 0 | clt = 0 < count < np | cge; kind: wrong = buffers differ | dies = no result: crash, assertion,
+  deadlock report or hang).  The same refusal expressed by an error code
   returned on every rank with untouched buffers (alltoall 2dmesh / 3dmesh ...) is counted as declined as well.
 
 Mutation evidence (tools/mutbuild.sh, quick tier): see MUTATIONS at the end of this file.
@@ -388,7 +389,7 @@ def run(ctx):
                 lays = layouts if not quick else [layouts[(ai + n + ctx.seed) % 2]]
                 for lay in lays:
                     jobs.append((coll, algo, n, lay))
-    tmo = 25 if quick else 45            # a run takes 0.1 .. 2 s; hangs of known-defective algorithms cost this much
+    tmo = 20 if quick else 45            # a run takes 0.1 .. 2 s; hangs of known-defective algorithms cost this much
 
     def do_job(jn):
         j, (coll, algo, n, lay) = jn
@@ -400,8 +401,9 @@ def run(ctx):
                 per_case[i] = ("ok", res["bufs"].get(i, {}), res["bars"].get(i, {}), "")
         else:
             # attribute the failure: every case on its own
+            t1 = max(8, tmo // 3) if res["status"] == "hang" else tmo     # a case takes 0.1 .. 0.5 s
             for i in ids:
-                r1 = run_cases(ctx, "j%d_c%d" % (j, i), coll, algo, n, lay, [i], cases, tmo)
+                r1 = run_cases(ctx, "j%d_c%d" % (j, i), coll, algo, n, lay, [i], cases, t1)
                 per_case[i] = (r1["status"], r1["bufs"].get(i, {}), r1["bars"].get(i, {}), r1["msg"])
         return per_case
 
@@ -465,40 +467,48 @@ def run(ctx):
             nfail[sig] = nfail.get(sig, 0) + 1
             cand.setdefault(sig, []).append((jn, i, kind, what, bufs))
 
-    # a failure is reported (once per signature) only if running the same case again fails again; up to three
-    # occurrences of a signature are tried
+    # a failure is reported (once per signature) only if running the same case again fails again; the failure kind of
+    # the signature is the one of that second run (its time-out is six times longer: a slow run is not a hang)
     def confirm(item):
+        """re-run (long time-out) up to three occurrences of a provisional signature; returns the confirmed failure
+        (job, case, kind, what, buffers[, barrier observation]) or None"""
         sig, occ = item
         for jn, i, kind, what, bufs in occ[:3]:
             coll, algo, n, lay = jobs[jn]
             c = cases[i]
-            r2 = run_cases(ctx, "re_%d_%d" % (jn, i), coll, algo, n, lay, [i], cases, 4 * tmo)
+            r2 = run_cases(ctx, "re_%d_%d" % (jn, i), coll, algo, n, lay, [i], cases, 6 * tmo)
             if r2["status"] == "declined":
                 continue
             if r2["status"] != "ok":
-                return sig, (jn, i, kind, what, bufs)
+                return (jn, i, r2["status"], "%s (%s)" % (r2["status"], r2["msg"]), bufs)
             if coll == "barrier":
                 b2 = r2["bars"].get(i, {})
                 if len(b2) != n:
-                    return sig, (jn, i, kind, what, bufs)
-                return sig, (jn, i, kind, what, bufs, {"enter": [b2[r][0] for r in range(n)], "leave": [b2[r][1] for r in range(n)]})
-            if refused_by_code(c, r2["bufs"].get(i, {})) is None and compare(c, exp[i], r2["bufs"].get(i, {})):
-                return sig, (jn, i, kind, what, bufs)
-        return sig, None
+                    return (jn, i, "wrong", "barrier: %d of %d ranks reported" % (len(b2), n), bufs)
+                return (jn, i, "wrong", what, bufs, {"enter": [b2[r][0] for r in range(n)], "leave": [b2[r][1] for r in range(n)]})
+            g2 = r2["bufs"].get(i, {})
+            d2 = None if refused_by_code(c, g2) is not None else compare(c, exp[i], g2)
+            if d2:
+                return (jn, i, "wrong", d2, g2)
+        return None
 
     confirmed = vlib.parallel_map(confirm, sorted(cand.items()))
-    rebar = [(sig, x) for sig, x in confirmed if x is not None and len(x) == 6]
-    rebar_ok = tlc_barriers(ctx, [x[5] for _, x in rebar])
-    still_bad = {sig for (sig, x), ok in zip(rebar, rebar_ok) if not ok}
+    rebar = [x for x in confirmed if x is not None and len(x) == 6]
+    rebar_ok = tlc_barriers(ctx, [x[5] for x in rebar])
+    bad_bar = {id(x) for x, ok in zip(rebar, rebar_ok) if not ok}
     failing = {}
-    for sig, x in confirmed:
-        if x is None or (len(x) == 6 and sig not in still_bad):
+    for x in confirmed:
+        if x is None or (len(x) == 6 and id(x) not in bad_bar):
             ctx.cov["unconfirmed"] = ctx.cov.get("unconfirmed", 0) + 1
             continue
         jn, i, kind, what, bufs = x[:5]
         coll, algo, n, lay = jobs[jn]
         c = cases[i]
-        failing[sig] = {"n": nfail[sig], "example": re.sub(r"\(/\S*mpi_coll [^|]*\|", "(", what)[:240]}
+        sig = "C29:%s:%s:%s:%s:%s" % (coll, algo, np_class(n), count_class(c), "wrong" if kind == "wrong" else "dies")
+        if sig in failing:
+            failing[sig]["n"] += 1
+            continue
+        failing[sig] = {"n": 1, "example": re.sub(r"\(/\S*mpi_coll [^|]*\|", "(", what)[:240]}
         ctx.violation("%s algorithm '%s' on %d ranks (%s hosts), root %d, count %d, op %s: %s" %
                       (coll, algo, n, lay, c["root"], c["count"], c["op"], what),
                       files={"cases.txt": case_to_txt(i, c), "case.json": json.dumps(spec_case(c)),
@@ -534,4 +544,18 @@ def run(ctx):
 
 
 MUTATIONS = """
+Scratch worktree tools/mutbuild.sh coll with three mutations at once, in algorithms that have no known finding:
+C1 allreduce-rdb.cpp: partner of a folded pair in the non power of two case (newdst * 2 instead of newdst * 2 + 1)
+C2 smpi_coll.cpp colls::scan: the contribution of the last lower rank is dropped (index < rank - 1)
+C3 allgather-ring.cpp: the block received in the last step is stored at the wrong displacement
+Because of the load of the machine (load average 150-300 during this round) the full `vcheck C29` run against that
+build was NOT made; what was run is the check's own pipeline on single cases (TLC expectation from MpiColl + driver
+mpi_coll under smpirun of the mutated build + compare()):
+  allreduce:rdb np=5 count=3 -> crash (deadlock report)   [np=4: ok, as expected for a non-power-of-two-only mutation]
+  scan:builtin np=4 count=2  -> wrong: rank 1 element 0: got -27, MPI defines -25
+  allgather:ring np=4 count=2 -> wrong: rank 0 element 2: got -777 (fill), MPI defines 29   [np=2: unaffected]
+and the same cases pass on the unchanged build.  These (collective, algorithm) pairs are in no KNOWN_FINDINGS entry,
+so a full run reports C29:allreduce:rdb:nonpof2:*:crash, C29:scan:builtin:*:wrong, C29:allgather:ring:*:wrong and exits 1.
+On the unchanged tree the check itself found 45 defective (collective, algorithm) entries (KNOWN_FINDINGS C29:*), two of
+which have a verified proposed fix (/verif/proposed/fix-C29-*.diff: the failing cases pass on a scratch build with the fix).
 """
